@@ -62,11 +62,16 @@ def run_check(pid, tier, jobs):
         print(errors[0], file=sys.stderr)
         return 3
     wall = time.time() - t0
+    vacuous = None
     try:
         extra = chk.finish(res, tier) or {}
     except Vacuous as e:
-        print(f"HARNESS-ERROR {pid}: vacuous exploration: {e}", file=sys.stderr)
-        return 3
+        # violations that were observed stand and are reported; only a run without any is a pure harness error
+        vacuous = str(e)
+        extra = {"vacuity_guard": vacuous, "exhaustive": False}
+        if not res.violations:
+            print(f"HARNESS-ERROR {pid}: vacuous exploration: {e}", file=sys.stderr)
+            return 3
     exhaustive = bool(
         extra.pop("exhaustive", True)
         and not res.capped
@@ -102,6 +107,10 @@ def run_check(pid, tier, jobs):
     }
     coverage.update(extra)
     rc = conclude(pid, tier, seed, coverage, chk.ASSUMPTIONS, res.violations, res.viol_counts, wall)
+    if vacuous is not None:
+        print(f"HARNESS-NOTE {pid}: coverage guard not met: {vacuous}", file=sys.stderr)
+        if rc == 0:
+            rc = 3
     print(
         f"{pid} {tier}: executions={res.executions} states={len(res.states)} transitions={len(res.transitions)} "
         f"outcomes={len(res.outcomes)} nontrivial={len(res.nontrivial)} status={dict(res.status)} "
